@@ -37,6 +37,8 @@ pub struct Exp {
     pub cell_alt: Vec<((usize, usize), CellAlt)>,
     /// every cell may alternatively be one of these (DECCOLM erase: cursor or default rendition)
     pub all_cells_also: Vec<Cell>,
+    /// ... but all cells must then show the same one ("erases the screen" with one rendition)
+    pub all_cells_uniform: bool,
     pub cx_also: Vec<u32>,
     pub cy_also: Vec<u32>,
     /// cursor only required to be inside the screen (resize)
@@ -57,12 +59,15 @@ pub struct Exp {
 
 impl Exp {
     pub fn new(s: Snap) -> Exp {
-        let tab_below = s.columns;
+        // tab stops are compared exactly, also beyond the right edge: only HTS/TBC/RIS may edit
+        // them, so a stop must survive a narrowing of the screen
+        let tab_below = u32::MAX;
         Exp {
             s,
             any_all: false,
             cell_alt: Vec::new(),
             all_cells_also: Vec::new(),
+            all_cells_uniform: false,
             cx_also: Vec::new(),
             cy_also: Vec::new(),
             cursor_inside: false,
@@ -411,7 +416,8 @@ fn draw_char(mut e: Exp, ch: char) -> Vec<Exp> {
     }
     let old_row = s.grid[y].clone();
     let attr = s.cattr.clone();
-    s.grid[y][x] = Cell { text: c.to_string(), attr: attr.clone() };
+    // (snapshots compare cell text modulo NFC: e.g. U+2000 EN QUAD normalises to U+2002)
+    s.grid[y][x] = Cell { text: nfc(&c.to_string()), attr: attr.clone() };
     if w == 2 {
         s.grid[y][x + 1] = Cell { text: String::new(), attr };
     }
@@ -728,7 +734,6 @@ pub fn expect(call: &Call, pre: &Snap) -> Vec<Exp> {
                 r_regrid(&mut e.s, nl, nc);
                 e.s.margins = None;
                 e.cursor_inside = true;
-                e.tab_below = c.min(nc);
                 e.dirty_all = true;
             }
         }
@@ -742,7 +747,6 @@ pub fn expect(call: &Call, pre: &Snap) -> Vec<Exp> {
                 if c != 132 {
                     e.s.saved_columns = Some(c);
                     r_regrid(&mut e.s, l, 132);
-                    e.tab_below = c.min(132);
                     e.margins_also.push(e.s.margins);
                     e.s.margins = None;
                 } else {
@@ -773,7 +777,6 @@ pub fn expect(call: &Call, pre: &Snap) -> Vec<Exp> {
                     (true, Some(w)) if w >= 1 => {
                         if w != 132 {
                             r_regrid(&mut e.s, l, w);
-                            e.tab_below = c.min(w);
                             e.margins_also.push(e.s.margins);
                             e.s.margins = None;
                         } else {
@@ -816,6 +819,7 @@ fn deccolm_erase_home(e: &mut Exp, pre: &Snap) {
     e.all_cells_also.push(e.s.default_cell());
     e.all_cells_also.push(pre.default_cell());
     e.all_cells_also.push(Cell::blank(pre.cattr.clone()));
+    e.all_cells_uniform = true;
     r_home(&mut e.s);
     home_alts(e);
 }
@@ -935,6 +939,17 @@ pub fn compare(e: &Exp, post: &Snap) -> Vec<Mismatch> {
         let missing: Vec<u32> = (0..post.lines).filter(|r| !post.dirty.contains(r)).collect();
         if !missing.is_empty() {
             m.push(mm("dirty", format!("every row must be dirty; missing {:?}", missing)));
+        }
+    }
+    if e.all_cells_uniform && x.lines > 0 && x.columns > 0 {
+        let first = &post.grid[0][0];
+        'u: for (yy, row) in post.grid.iter().enumerate() {
+            for (xx, c) in row.iter().enumerate() {
+                if c != first {
+                    m.push(mm("cell", format!("the erased screen is not uniform: cell(row 0,col 0) is {} but cell(row {},col {}) is {}", first.show(), yy, xx, c.show())));
+                    break 'u;
+                }
+            }
         }
     }
     let mut cells = 0;
